@@ -63,7 +63,9 @@ def main(tier, seed):
     q = tier == 'quick'
     rep = common.Report('C17', tier, seed)
     pool = engine.Pool()
-    N, P, Q = (12, 12, 12) if q else (24, 40, 12)
+    Ns = set(range(1, 13)) | {25, 100} if q else set(range(1, 25)) | {25, 50, 100, 300}
+    Ps = set(range(1, 13)) | {999, 1000, 1001} if q else set(range(1, 41)) | {999, 1000, 1001}
+    Qs = set(range(1, 13)) | {1000}
 
     def on_result(info):
         rep.evaluations += 1
@@ -71,13 +73,14 @@ def main(tier, seed):
             rep.distinct.add(info['hash'])
         rep.sample(info['sample'])
     try:
-        res = engine.tlc_replay(rep, pool, 'MC_Skew', replay_skew, consts=dict(MaxN=N, MaxP=P, MaxQ=Q),
+        res = engine.tlc_replay(rep, pool, 'MC_Skew', replay_skew, consts=dict(Ns=Ns, Ps=Ps, Qs=Qs),
                                 invariants=['Positive', 'SumsToOne', 'CommonDen', 'Arithmetic', 'LastIsSTimesFirst', 'SingleAgent', 'Export'],
                                 on_result=on_result, timeout=1800)
     finally:
         pool.close()
-    if res['exports'] != N * P * Q:
-        common.machinery_exit('C17', 'exported %d, expected %d' % (res['exports'], N * P * Q))
+    if res['exports'] != len(Ns) * len(Ps) * len(Qs):
+        common.machinery_exit('C17', 'exported %d, expected %d' % (res['exports'], len(Ns) * len(Ps) * len(Qs)))
     growth_sampling(rep, seed)
     rep.assumptions = ['numeric equality up to relative tolerance 1e-9 (the function returns floats)']
-    return rep.finish(exhaustive=True, rule='all n in 1..%d and skews p/q with p in 1..%d, q in 1..%d (s<1, s=1, s>1); non-trivial = n >= 2' % (N, P, Q))
+    return rep.finish(exhaustive=True, rule='all n in %s and skews p/q with p in %s, q in %s (s from 1/1000 to 1001, s = 1, s just below and above 1); non-trivial = n >= 2'
+                           % (sorted(Ns)[-4:], sorted(Ps)[-5:], sorted(Qs)[-3:]))
